@@ -208,9 +208,12 @@ def machine(tier, sink):
       self.done = False
 
     @initialize(base=st.one_of(G.search_spec(max_geos=max_geos, min_geos=2, constraint_p=0.3, max_dates=16),
+                               G.search_spec(max_geos=max_geos + 1, min_geos=4, constraint_p=0.15, elig_style='mixed', max_dates=12),
                                G.search_spec(max_geos=max_geos, min_geos=3, constraint_p=0.2, elig_style='mixed', max_dates=16)))
     def init(self, base):
       base['params']['n_designs'] = min(base['params']['n_designs'], 10)
+      if len(base['panel']['ids']) >= 4 and base['panel']['perm_seed'] % 3 == 0:
+        base['params']['n_geos_max'] = 2 + base['panel']['perm_seed'] % 2      # a binding cap on the geos admitted
       self.r = Runner(base)
 
     def _do(self, op):
